@@ -196,25 +196,42 @@ open Ctx
 section
 variable {m0 : Mon} {b : Bool} {c : Ctx}
 
+theorem discFirst_nack (r : Nack) (c : Ctx) : ∀ o ∈ c.discFirst r, ∃ q : QMsg, o = nackOf r q := by
+  intro o ho
+  unfold Ctx.discFirst at ho
+  split at ho
+  · simp at ho; exact ⟨_, ho⟩
+  · simp at ho
+
+theorem discDq_nack (r : Nack) (c : Ctx) : ∀ o ∈ c.discDq r, ∃ q : QMsg, o = nackOf r q := by
+  intro o ho
+  unfold Ctx.discDq at ho
+  split at ho
+  · simp at ho
+  · simp only [List.mem_map] at ho
+    obtain ⟨q, _, rfl⟩ := ho
+    exact ⟨q, rfl⟩
+
+theorem discLg_nack (r : Nack) (c : Ctx) : ∀ o ∈ c.discLg r, ∃ q : QMsg, o = nackOf r q := by
+  intro o ho
+  unfold Ctx.discLg at ho
+  split at ho
+  · split at ho
+    · simp at ho; exact ⟨_, ho⟩
+    · simp at ho
+  · simp at ho
+
 theorem discOuts_inert (r : Nack) (c : Ctx) : ∀ o ∈ c.discOuts r, o.inert = true := by
   intro o ho
-  have key : ∃ a t n, o = Out.nack a t n := by
-    unfold Ctx.discOuts at ho
-    simp only [List.mem_append] at ho
-    rcases ho with (ho | ho) | ho
-    · cases hi : c.s.inflight with
-      | nil => simp [hi] at ho
-      | cons q t => simp [hi] at ho; subst ho; exact ⟨_, _, _, rfl⟩
-    · by_cases hr : r = .icmp
-      · simp [hr] at ho
-      · simp only [hr, if_false, List.mem_map] at ho
-        obtain ⟨q, _, rfl⟩ := ho
-        exact ⟨_, _, _, rfl⟩
-    · split at ho
-      · simp at ho
-      · simp at ho; obtain ⟨_, rfl⟩ := ho; exact ⟨_, _, _, rfl⟩
-  obtain ⟨a, t, n, rfl⟩ := key
-  rfl
+  unfold Ctx.discOuts at ho
+  simp only [List.mem_append] at ho
+  rcases ho with ((ho | ho) | ho) | ho
+  · obtain ⟨q, rfl⟩ := discFirst_nack r c o ho; rfl
+  · obtain ⟨q, rfl⟩ := discDq_nack r c o ho; rfl
+  · obtain ⟨q, rfl⟩ := discLg_nack r c o ho; rfl
+  · split at ho
+    · simp at ho; subst ho; rfl
+    · simp at ho
 
 theorem disconnected_inv (r : Nack) (h : Inv m0 b c) : Inv m0 b (c.disconnected r) := by
   unfold Ctx.disconnected
@@ -406,7 +423,7 @@ theorem sessionFree_inv (h : Inv m0 b c) : Inv m0 b c.sessionFree := by
   unfold Ctx.sessionFree
   simp only
   apply inv_upd _ (by simp) (by simp) (by simp)
-  exact inv_outs_inert _ (nackOf_inert _ _) (sessionClose_inv h)
+  exact inv_outs_inert _ (nackOf_inert _ _) (sessionClose_inv (inv_upd _ (by simp) (by simp) (by simp) h))
 
 theorem maybeFree_inv (h : Inv m0 b c) : Inv m0 b c.maybeFree := by
   unfold Ctx.maybeFree
@@ -430,6 +447,28 @@ theorem appSend_inv (con : Bool) (code mid : Nat) (tok : String) (h : Inv m0 b c
   unfold Ctx.appSend
   exact sendInternal_inv _ _ (inv_upd _ (by simp) (by simp) (by simp) h)
 
+/-! block mode: the lg_crcv list never matters for the gate -/
+
+theorem sendLkdTail_inv (m : QMsg) (obs : Bool) (h : Inv m0 b c) : Inv m0 b (c.sendLkdTail m obs) := by
+  unfold Ctx.sendLkdTail
+  refine inv_ite (fun _ => sendInternal_inv _ _ h) fun _ => inv_ite (fun _ => ?_) fun _ => sendInternal_inv _ _ h
+  simp only
+  have h1 := sendInternal_inv m false (inv_upd (fun s => { s with lgCrcv := eraseTok m.tok s.lgCrcv }) (by simp) (by simp) (by simp) h)
+  exact inv_ite (fun _ => inv_upd _ (by simp) (by simp) (by simp) h1) fun _ => h1
+
+theorem appSendL_inv (con obs : Bool) (code mid : Nat) (tok : String) (h : Inv m0 b c) :
+    Inv m0 b (c.appSendL con obs code mid tok) := by
+  unfold Ctx.appSendL
+  exact sendLkdTail_inv _ _ (inv_upd _ (by simp) (by simp) (by simp) h)
+
+theorem lgResponse_inv (v : View) (h : Inv m0 b c) : Inv m0 b (c.lgResponse v) := by
+  unfold Ctx.lgResponse
+  exact inv_ite (fun _ => h) fun _ => inv_ite (fun _ => inv_emit_inert _ rfl h) fun _ => inv_upd _ (by simp) (by simp) (by simp) h
+
+theorem lgExpire_inv (keep : List String) (h : Inv m0 b c) : Inv m0 b (c.lgExpire keep) := by
+  unfold Ctx.lgExpire
+  exact inv_upd _ (by simp) (by simp) (by simp) h
+
 theorem inv_setFound (q : Option QMsg) (h : Inv m0 b c) : Inv m0 b (c.setFound q) := by
   obtain ⟨h1, h2, h3, h4, h5⟩ := h
   constructor <;> simp_all [Ctx.setFound]
@@ -449,7 +488,7 @@ theorem handleResponse_inv (v : View) (h : Inv m0 true c) : Inv m0 true (c.handl
                conActive := s.conActive - (s.inflight.filter fun q => q.tok = v.tok ∧ q.con).length }
     else s) (by by_cases hk : v.kind ≠ 2 <;> simp [hk]) h
   refine inv_ite (fun _ => inv_emit_inert _ rfl h1) fun _ => inv_ite (fun _ => h1) fun _ => ?_
-  exact inv_emit_handler _ rfl rfl (inv_upd_true _ (by by_cases hk : v.kind = 2 <;> simp [hk]) h1)
+  exact inv_emit_handler _ rfl rfl (lgResponse_inv v (inv_upd_true _ (by by_cases hk : v.kind = 2 <;> simp [hk]) h1))
 
 theorem handleRequest_inv (v : View) (h : Inv m0 true c) : Inv m0 true (c.handleRequest v) := by
   unfold Ctx.handleRequest
@@ -627,7 +666,7 @@ theorem dispatchStrm_inv (v : View) (h : Inv m0 true c) : Inv m0 true (c.dispatc
   unfold Ctx.dispatchStrm
   refine inv_ite (fun _ => inv_ite (fun _ => sessionConnected_inv h) fun _ => h) fun _ => ?_
   refine inv_ite (fun _ => inv_emit_inert _ rfl h) fun _ => inv_ite (fun _ => inv_emit_inert _ rfl h) fun _ => ?_
-  refine inv_ite (fun _ => ?_) fun _ => inv_ite (fun _ => inv_emit_handler _ rfl rfl h) fun _ => inv_emit_inert _ rfl h
+  refine inv_ite (fun _ => ?_) fun _ => inv_ite (fun _ => inv_emit_handler _ rfl rfl (lgResponse_inv v h)) fun _ => inv_emit_inert _ rfl h
   simp only
   exact sendPdu_inv _ _ _ (inv_upd_true _ (by simp) (inv_emit_handler _ rfl rfl h))
 
@@ -682,7 +721,7 @@ theorem appSendStrm_inv (w : Bool) (code mid : Nat) (tok : String) (h : Inv m0 b
        then (c.upd fun s => { s with doingFirst := false }).emit (.unmodelled "csm-timeout")
        else c.upd fun s => { s with doingFirst := false }) else c) :=
     inv_ite (fun _ => inv_ite (fun _ => inv_emit_inert _ rfl h0) fun _ => h0) fun _ => h
-  exact sendInternal_inv _ _ (inv_upd _ (by simp) (by simp) (by simp) h1)
+  exact sendLkdTail_inv _ _ (inv_upd _ (by simp) (by simp) (by simp) h1)
 
 theorem stepCtx_inv (s : Sess) (e : Ev) (orc : List Orc) (h : Inv m0 false { s := s, orc := orc }) :
     Inv m0 false (s.stepCtx e orc) := by
@@ -701,6 +740,8 @@ theorem stepCtx_inv (s : Sess) (e : Ev) (orc : List Orc) (h : Inv m0 false { s :
   · exact maybeFree_inv (strmRead_inv h)
   · exact maybeFree_inv (strmWrite_inv h)
   · exact appSendStrm_inv _ _ _ _ h
+  · exact appSendL_inv _ _ _ _ _ h
+  · exact lgExpire_inv _ h
 
 end
 end Coap.TlsGate
